@@ -21,6 +21,8 @@ try:
     r0 = subprocess.run(["/venv/bin/python", f"{src}/demo.py"], env=env, capture_output=True, text=True, timeout=1800, cwd=w).returncode
     ap = subprocess.run(["git", "apply", f"{src}/patch.diff"], cwd=w, capture_output=True, text=True)
     if ap.returncode:
+        ap = subprocess.run(["git", "apply", "--3way", f"{src}/patch.diff"], cwd=w, capture_output=True, text=True)
+    if ap.returncode:
         print("patch does not apply:", ap.stderr[:300])
         sys.exit(8)
     r1 = subprocess.run(["/venv/bin/python", f"{src}/demo.py"], env=env, capture_output=True, text=True, timeout=1800, cwd=w).returncode
